@@ -104,6 +104,18 @@ def rule_frames(repo, rep):
   if f is not None:
     rep.analysed(f)
     key = 'Constraints.generate_knntriplets'
+    Rq = 'FRAME:genuine-neighbours-exclude-self'
+    rep.rule(Rq, 'no neighbour search queries the fitted point set against '
+             'itself with an explicit X (each point would be its own '
+             'neighbour; only the X-less kneighbors query excludes it)')
+    sq = [e for e in dom.events if e[0] == 'self-query']
+    if sq:
+      rep.refuted(Rq, key, sq[0][1], 'the same-class neighbours are searched '
+                  'by querying the fitted set against itself: a point is '
+                  'returned as its own neighbour (with duplicated points not '
+                  'necessarily first)')
+    else:
+      rep.derived(Rq, key, site(f))
     for (v, st, node) in flow.returns:
       n += 1
       if idx_ok(v.d):
@@ -197,6 +209,30 @@ def rule_chunks(repo, rep):
     rep.refuted(R4, 'Constraints.chunks:pool-update', site(f, c),
                 'drawn members are not removed from the class pool before '
                 'the next draw')
+  # the feasibility bound itself: sum over classes of len(pool) // chunk_size
+  bdefs = [n for n in ast.walk(f.node) if isinstance(n, ast.Assign) and
+           ast.unparse(n.targets[0]) == 'max_chunks']
+  if bdefs:
+    v = bdefs[-1].value
+    comps = [c_ for c_ in ast.walk(v)
+             if isinstance(c_, (ast.ListComp, ast.GeneratorExp))]
+    per_class = any(
+        isinstance(c_.elt, ast.BinOp) and isinstance(c_.elt.op, ast.FloorDiv)
+        and ast.unparse(c_.elt.right) == 'chunk_size' and
+        ast.unparse(c_.elt.left).startswith('len(') for c_ in comps)
+    pooled = any(isinstance(b, ast.BinOp) and isinstance(b.op, ast.FloorDiv)
+                 and ast.unparse(b.right) == 'chunk_size'
+                 for b in ast.walk(v)) and not per_class
+    if per_class:
+      rep.derived(R4, 'Constraints.chunks:bound', site(f, bdefs[-1]))
+    elif pooled:
+      rep.refuted(R4, 'Constraints.chunks:bound', site(f, bdefs[-1]),
+                  'the number of possible chunks is computed as %s: points '
+                  'of different classes are pooled, so an infeasible request '
+                  'is not rejected' % ast.unparse(v))
+    else:
+      rep.unknown(R4, 'Constraints.chunks:bound', site(f, bdefs[-1]),
+                  'feasibility bound %s not recognised' % ast.unparse(v))
   raises = [r for r in ast.walk(f.node) if isinstance(r, ast.Raise)]
   loops = [w for w in ast.walk(f.node) if isinstance(w, (ast.While, ast.For))
            and any(c is x for x in ast.walk(w))]
